@@ -5,3 +5,4 @@ pub mod val;
 pub mod hist;
 pub mod text;
 pub mod pratt;
+pub mod drops;
